@@ -5,7 +5,7 @@
 package main
 
 // Every function under contract in this package also serves the properties that depend on the whole package.
-//@ package-props C01
+//@ package-props C01 C12
 
 // (the cache and manager operations are seen through the client views in /verif/contracts/stubs/collector_view.gvc)
 // A configured target is cacheKnows with the cache before the target manager starts
